@@ -46,6 +46,14 @@ Fixpoint find_worker (it : item) (l : list wstate) (i : nat) : option nat :=
   | _ :: r => find_worker it r (S i)
   end.
 
+(* settling with the opposite priority among enabled internal actions must show the same snapshot; if it does
+   not, which goroutine moves first matters here and the scenario stops (nothing is compared from there on) *)
+Definition order_sensitive (nt : net) (T : nat) (s1 s2 : state) : bool :=
+  match settle_rev 4000 nt T s1 with
+  | SOk s2' => negb (tree_eqb (snapshot s2) (snapshot s2'))
+  | _ => true
+  end.
+
 Record pstate := { st : state; next_id : Z; stopped : bool; bad : bool }.
 
 Definition fuel0 : nat := 4000.
@@ -67,7 +75,7 @@ Definition play1 (nt : net) (T : nat) (p : pstate) (i : intent) : pstate * cmd *
     | Some s1 =>
         match settle fuel0 nt T s1 with
         | SOk s2 =>
-            if ambiguous_blocked s2 || ambiguous_discard nt s s2 rel
+            if ambiguous_blocked s2 || ambiguous_discard nt s s2 rel || order_sensitive nt T s1 s2
             then ({| st := s; next_id := next_id p; stopped := true; bad := false |}, CSkip, snapshot s)
             else ({| st := s2; next_id := (next_id p + used)%Z; stopped := false; bad := false |}, c, snapshot s2)
         | _ => ({| st := s; next_id := next_id p; stopped := true; bad := true |}, CSkip, snapshot s)
